@@ -27,10 +27,9 @@ RULE = (
     "random trees: depth <= 4, fan-out <= 4, <= 14 components, class shapes none/prepare/start/both, 0-4 steps per phase from {sleep 0.5-3, "
     "yield 1-3, publish (static / factory / multi-type, optional default-name remapping through an alias `kind/name`), wait on an earlier "
     "publication, optional lookup, teardown registration, service task}, children hard-coded with add_component() or supplied through "
+    "configuration; timeout None or huge; asyncio and trio (seeded, half fully shuffled). "
     "8% wide trees (one component with 9-24 children, wait-heavy); components publishing themselves with add_resource(self); service tasks needing 0.5-1 virtual seconds inside start_service_task(). "
-    "configuration; timeout None or huge; asyncio and trio (seeded, half fully shuffled). Non-trivial: >= 2 siblings running concurrently "
-    "(overlapping virtual-time intervals); distinct = (tree shape, interleaving signature)."
-)
+    "Non-trivial: >= 2 siblings running concurrently ")
 DECIDING = {
     "steps_timed": "steps compared with their longest-path virtual time",
     "wait_steps_timed": "waits on another component's resource compared with the exact schedule",
